@@ -38,6 +38,8 @@ CHECKS = {
          "Every destination Write call of every workload x configuration is failed in turn (error / short count / ErrShortWrite, transient and sticky): the call it hits must return an error, nothing may panic, accepted bytes must stay a prefix of the fault-free output (checked after every write); every attachment source failure/early/late end must be reported.", TB + " Contract-violating sinks (short count, nil error) are out of scope.", "DESIGN §4 C14"),
  "C15": (FE, "exhaustive delivery-policy and source-error enumeration on the real lexer/iterators/Info",
          "Every file x 7 readers x {full, 1-byte, halving, 7-byte, data+EOF, a short read at every k-th Read} and an injected non-EOF error at every byte position / k-th Seek (sticky and one-shot): results must not depend on delivery, and after an error the results are a prefix ending in a non-EOF error.", TB, "DESIGN §4 C15"),
+ "C16": (MC, "exhaustive enumeration of workloads x writer option sets in both directions, cross-implementation differential with python3 subprocesses",
+         "Go->Python: every call sequence at the stated depth x all 3072 uncompressed Go configurations (plus deeper workloads under 16 flag settings) read by the repository's Python StreamReader and SeekingReader with CRC validation; Python->Go: the Python Writer under all 6144 option sets (plus deeper workloads under reduced options) read by the Go lexer, iterators, Info and random access; oracle = the call log on the writing side.", TB + " python3 with /repo/python/mcap on sys.path; compression NONE only (zstandard/lz4 are not installed for Python).", "DESIGN §4 C16"),
  "C17": (MC, "complete enumeration of the finite conformance matrix (416 vectors), tools rebuilt from the tree",
          "All 416 expectations: binaries regenerated by the reference encoder and pinned by the LFS sha256; read tool streamed on all, indexed on the admitted variants, write tool byte-exact on the 208 non-padded ones.", TB, "DESIGN §4 C17"),
  "C18": (MC, "exhaustive enumeration of generated bags and SQLite databases plus truncation/field-mutation corruptions, converted in isolated worker processes and decoded by the reference decoder",
